@@ -16,7 +16,7 @@ def typer_part(ctx):
     from .. import absyn, encode as E, pool, tlc
     run = ctx["run"]
     quick = run.tier == "quick"
-    picks = [it for it in ctx["items"] if it.get("text")][: (40 if quick else 150)]
+    picks = [it for it in ctx["items"] if it.get("text")][: (30 if quick else 150)]
     jobs = []
     for fp in ((100, 1) if quick else (100, 1, 2, 3)):
         for it in picks:
@@ -93,7 +93,7 @@ def typer_part(ctx):
 
 
 def main(tier, seed):
-    items = standard_items(seed, tier, 24, 120, bench_quick=8, ps_quick=20, ps_thorough=220)
+    items = standard_items(seed, tier, 12, 120, bench_quick=4, ps_quick=8, ps_thorough=220)
     variants = [("", {})] if tier == "quick" else [("", {}), ("-fp1", {"type_fp_iterations": 1}), ("-fp2", {"type_fp_iterations": 2})]
     if tier == "quick":
         variants.append(("-fp1", {"type_fp_iterations": 1}))
